@@ -33,16 +33,24 @@ def edges (n : Nat) (adj : Nat → Nat → Bool) : List (Nat × Nat) :=
 /-- the relation the code puts into the matrix: `comparison_fn` evaluated on `i < j` -/
 def Similar (n : Nat) (adj : Nat → Nat → Bool) (a b : Nat) : Prop := a < b ∧ b < n ∧ adj a b = true
 
-/-- relabel every node carrying label `b` to label `a` -/
-def merge (lab : Nat → Nat) (a b : Nat) : Nat → Nat :=
-  fun x => let l := lab x; if l = b then a else l
+/-- the label of position `x` in a label list (positions outside the list keep their own
+    number; never used for `x < n`) -/
+def labelAt (l : List Nat) : Nat → Nat := fun x => l.getD x x
 
-def step (lab : Nat → Nat) (e : Nat × Nat) : Nat → Nat := merge lab (lab e.1) (lab e.2)
+/-- relabel every position carrying label `b` to label `a` -/
+def merge (l : List Nat) (a b : Nat) : List Nat := l.map fun v => if v = b then a else v
 
-def run (lab : Nat → Nat) (es : List (Nat × Nat)) : Nat → Nat := es.foldl step lab
+/-- one similar pair `(i, j)`: the component of `j` takes the label of the component of `i` -/
+def step (l : List Nat) (e : Nat × Nat) : List Nat := merge l (labelAt l e.1) (labelAt l e.2)
+
+def run (l : List Nat) (es : List (Nat × Nat)) : List Nat := es.foldl step l
+
+/-- component labels of the positions `0 … n-1`: every position starts with its own label,
+    then the similar pairs are merged one by one -/
+def labelList (n : Nat) (adj : Nat → Nat → Bool) : List Nat := run (List.range n) (edges n adj)
 
 /-- component labels (two positions are in one component iff their labels are equal) -/
-def labels (n : Nat) (adj : Nat → Nat → Bool) : Nat → Nat := run id (edges n adj)
+def labels (n : Nat) (adj : Nat → Nat → Bool) : Nat → Nat := labelAt (labelList n adj)
 
 /-- `x` is the first position carrying its label -/
 def isFirst (lab : Nat → Nat) (x : Nat) : Bool := (List.range x).all fun y => lab y != lab x
@@ -53,7 +61,8 @@ def groupBy (lab : Nat → Nat) (n : Nat) : List (List Nat) :=
   ((List.range n).filter (isFirst lab)).map fun r => (List.range n).filter fun x => lab x == lab r
 
 /-- `group_sound_events` on positions -/
-def group (n : Nat) (adj : Nat → Nat → Bool) : List (List Nat) := groupBy (labels n adj) n
+def group (n : Nat) (adj : Nat → Nat → Bool) : List (List Nat) :=
+  groupBy (labelAt (labelList n adj)) n      -- = `groupBy (labels n adj) n`; the list is computed once
 
 /-! ### the final loop of the code, literally -/
 
